@@ -194,6 +194,13 @@ class Ctx:
             self._pool.join()
             self._pool = None
 
+    def terminate(self):
+        if self._pool is not None:
+            try:
+                self._pool.terminate()
+            except Exception:  # pragma: no cover
+                pass
+
 
 # ---------------------------------------------------------------------------------------------
 
@@ -293,6 +300,23 @@ def main(argv=None):
     jobs = args.jobs or min(16, os.cpu_count() or 1)
     ctx = Ctx(prop, args.tier, seed, jobs)
     t0 = time.time()
+
+    # watchdog: a check that does not finish (a changed library can make an exploration blow up) is a failed check, not a hung one
+    import threading
+
+    limit = float(os.environ.get("VERIF_TIMEOUT", "0") or 0) or (1800.0 if args.tier == "quick" else 6 * 3600.0)
+
+    def on_timeout():
+        path = write_replay(prop, "harness:timeout", {"count": 1, "cases": [{"case": None, "message": "no result after %.0f s" % limit}]}, args.tier, seed, "harness")
+        sys.stderr.write("[%s] harness:timeout after %.0f s\n" % (prop, limit))
+        print("VIOLATION property=%s replay=%s" % (prop, path))
+        sys.stdout.flush()
+        ctx.terminate()
+        os._exit(1)
+
+    watchdog = threading.Timer(limit, on_timeout)
+    watchdog.daemon = True
+    watchdog.start()
     mod = None
     report = Report()
     try:
@@ -311,6 +335,7 @@ def main(argv=None):
         sys.stderr.write(tb)
     finally:
         ctx.close()
+        watchdog.cancel()
     wall = time.time() - t0
 
     known = load_known(prop)
